@@ -12,6 +12,7 @@ import (
 type GraphSpec struct {
 	Parents [][]int `json:"parents"`
 	Times   []int64 `json:"times"` // seconds after 2000-01-01; adversarial
+	Zones   []int   `json:"zones,omitempty"` // per commit (cyclic): the author's zone offset in minutes (commits record the zone; a commit re-encoded on its way must keep its bytes)
 }
 
 func (g *GraphSpec) N() int { return len(g.Parents) }
@@ -19,6 +20,11 @@ func (g *GraphSpec) N() int { return len(g.Parents) }
 func (g *GraphSpec) Validate() error {
 	if len(g.Times) != 0 && len(g.Times) != len(g.Parents) {
 		return fmt.Errorf("times/parents length mismatch")
+	}
+	for _, z := range g.Zones {
+		if z < -14*60 || z > 14*60 {
+			return fmt.Errorf("zone out of range")
+		}
 	}
 	if len(g.Parents) > 400 {
 		return fmt.Errorf("graph too large")
@@ -166,6 +172,9 @@ func (g *GraphSpec) Materialise(st *Store, tableOf func(i int) []byte) ([][]byte
 			ts = g.Times[i]
 		}
 		c.Time = bubbleEpoch.Add(time.Duration(ts) * time.Second)
+		if len(g.Zones) > 0 {
+			c.Time = c.Time.In(time.FixedZone("", g.Zones[i%len(g.Zones)]*60))
+		}
 		for _, p := range g.Parents[i] {
 			c.Parents = append(c.Parents, sums[p])
 		}
